@@ -427,6 +427,8 @@ func Rank(w *load.World, c *core.Collector) {
 	weightDefaults(w, c)
 	ownFilter(w, c)
 	arrayTermSets(w, c)
+	unlinkCovers(w, c)
+	textTermsDistinct(w, c)
 }
 
 func isParamOrCapture(f *ssa.Function, typeName string) func(ssa.Value) bool {
@@ -2805,5 +2807,289 @@ func arrayTermSets(w *load.World, c *core.Collector) {
 	}
 	if !done {
 		c.Add("RANK", "anchor:array-search", core.Undecided, "", "IndexInvertedArray.Search not found", props...)
+	}
+}
+
+// unlinkCovers: a point whose vector is replaced or removed is first unlinked from the graph: the
+// set handed to removeInboundEdges holds the ids of the updated points as well as of the deleted
+// ones. An updated point that is left out keeps the edges (and the cached neighbour entries with
+// the old vector) of its old position; searches near the old position report it with the distance
+// to a vector it no longer has. Decided: ids are added to that set both where (or from what) the
+// deleted ids are collected and where (or from what) the updated points are collected.
+func unlinkCovers(w *load.World, c *core.Collector) {
+	props := []string{"C03", "C10"}
+	var site *ssa.Call
+	var home *ssa.Function
+	for _, f := range w.Fns {
+		if load.PkgPath(f) != load.Mod+"/shard/index/vamana" {
+			continue
+		}
+		for _, b := range f.Blocks {
+			for _, in := range b.Instrs {
+				if call, ok := in.(*ssa.Call); ok && call.Call.StaticCallee() != nil && call.Call.StaticCallee().Name() == "removeInboundEdges" && f.Name() != "removeInboundEdges" {
+					site, home = call, f
+				}
+			}
+		}
+	}
+	if site == nil {
+		c.Add("RANK", "anchor:unlink", core.Undecided, "", "no call of removeInboundEdges found in the vamana package", props...)
+		return
+	}
+	for home.Parent() != nil {
+		home = home.Parent()
+	}
+	// the set: a map value or the cell that holds it
+	root := func(v ssa.Value) ssa.Value {
+		for i := 0; i < 6; i++ {
+			switch x := v.(type) {
+			case *ssa.UnOp:
+				v = x.X
+			case *ssa.FreeVar:
+				if al := capturedCell(x); al != nil {
+					return al
+				}
+				return v
+			case *ssa.Phi:
+				return v
+			default:
+				return v
+			}
+		}
+		return v
+	}
+	set := root(site.Call.Args[len(site.Call.Args)-1])
+	// handed down by a caller: the caller's set, and the caller is where it is filled
+	for i := 0; i < 2; i++ {
+		p, ok := set.(*ssa.Parameter)
+		if !ok {
+			break
+		}
+		idx := -1
+		for k, q := range p.Parent().Params {
+			if q == p {
+				idx = k
+			}
+		}
+		sites := staticCallSites(w, p.Parent())
+		if idx < 0 || len(sites) != 1 || idx >= len(sites[0].Common().Args) {
+			break
+		}
+		set = root(sites[0].Common().Args[idx])
+		home = sites[0].Parent()
+		for home.Parent() != nil {
+			home = home.Parent()
+		}
+	}
+	kinds := map[string]bool{}
+	elemKind := func(t types.Type) string {
+		sl, ok := t.Underlying().(*types.Slice)
+		if !ok {
+			return ""
+		}
+		if bt, ok := sl.Elem().Underlying().(*types.Basic); ok && bt.Kind() == types.Uint64 {
+			return "deleted"
+		}
+		if _, ok := sl.Elem().Underlying().(*types.Struct); ok {
+			return "updated"
+		}
+		return ""
+	}
+	fns := append([]*ssa.Function{home}, home.AnonFuncs...)
+	n := 0
+	updBlocks := map[*ssa.Function][]*ssa.BasicBlock{}
+	defer func() {}()
+	for _, f := range fns {
+		for _, b := range f.Blocks {
+			for _, in := range b.Instrs {
+				mu, ok := in.(*ssa.MapUpdate)
+				if !ok || root(mu.Map) != set {
+					continue
+				}
+				n++
+				updBlocks[f] = append(updBlocks[f], b)
+				// or taken from a collected list
+				key := mu.Key
+				for i := 0; i < 6 && key != nil; i++ {
+					switch x := key.(type) {
+					case *ssa.Field:
+						key = x.X
+					case *ssa.UnOp:
+						key = x.X
+					case *ssa.FieldAddr:
+						key = x.X
+					case *ssa.IndexAddr:
+						if k := elemKind(x.X.Type()); k != "" {
+							kinds[k] = true
+						}
+						key = nil
+					case *ssa.Index:
+						key = nil
+					case *ssa.Extract:
+						if nx, ok := x.Tuple.(*ssa.Next); ok {
+							if rg, ok := nx.Iter.(*ssa.Range); ok {
+								if k := elemKind(rg.X.Type()); k != "" {
+									kinds[k] = true
+								}
+							}
+						}
+						key = nil
+					default:
+						key = nil
+					}
+				}
+			}
+		}
+	}
+	// collected where the lists are collected: every place that appends to a list of deleted ids
+	// or of updated points also adds to the set on all ways through (before or after the append)
+	appendsOf := map[string]int{}
+	uncovered := map[string]bool{}
+	for _, f := range fns {
+		for _, b := range f.Blocks {
+			for _, in := range b.Instrs {
+				call, ok := in.(*ssa.Call)
+				if !ok {
+					continue
+				}
+				bl, ok := call.Call.Value.(*ssa.Builtin)
+				if !ok || bl.Name() != "append" {
+					continue
+				}
+				k := elemKind(call.Type())
+				if k == "" {
+					continue
+				}
+				appendsOf[k]++
+				covered := false
+				for _, ub := range updBlocks[f] {
+					if ub == b || ub.Dominates(b) || !exitReachableAvoiding(b, ub) {
+						covered = true
+					}
+				}
+				if !covered {
+					uncovered[k] = true
+				}
+			}
+		}
+	}
+	for _, k := range []string{"deleted", "updated"} {
+		if appendsOf[k] > 0 && !uncovered[k] && len(updBlocks) > 0 {
+			kinds[k] = true
+		}
+	}
+	switch {
+	case n == 0:
+		c.Add("RANK", "vamana:unlink-covers", core.Undecided, w.At(site), "nothing is ever added to the set handed to removeInboundEdges", props...)
+	case !kinds["updated"]:
+		c.Add("RANK", "vamana:unlink-covers", core.Violation, w.At(site), "the set of nodes to unlink is filled from the deleted ids only: a point whose vector is replaced keeps the inbound edges and cached neighbour entries of its old position, and searches near that position report it with the distance to its previous vector", props...)
+	case !kinds["deleted"]:
+		c.Add("RANK", "vamana:unlink-covers", core.Violation, w.At(site), "the set of nodes to unlink is filled from the updated points only: edges to deleted nodes stay in the graph", props...)
+	default:
+		c.Add("RANK", "vamana:unlink-covers", core.OK, w.At(site), "", props...)
+	}
+}
+
+// exitReachableAvoiding: a return of the function can be reached from block b without entering block avoid
+func exitReachableAvoiding(b, avoid *ssa.BasicBlock) bool {
+	seen := map[*ssa.BasicBlock]bool{avoid: true}
+	var dfs func(x *ssa.BasicBlock) bool
+	dfs = func(x *ssa.BasicBlock) bool {
+		if seen[x] {
+			return false
+		}
+		seen[x] = true
+		if _, ok := x.Instrs[len(x.Instrs)-1].(*ssa.Return); ok {
+			return true
+		}
+		for _, s := range x.Succs {
+			if dfs(s) {
+				return true
+			}
+		}
+		return false
+	}
+	return dfs(b)
+}
+
+// textTermsDistinct: the tf-idf score sums over the distinct terms of the analysed query. Where
+// the text index collects query terms into a slice it does so behind a membership test (or
+// compacts the slice): a term appended once per occurrence is scored once per occurrence, and
+// "wizard wizard hobbit" ranks differently from "wizard hobbit".
+func textTermsDistinct(w *load.World, c *core.Collector) {
+	props := []string{"C05"}
+	n := 0
+	bad := ""
+	for _, f := range w.Fns {
+		if load.PkgPath(f) != load.Mod+"/shard/index/text" || f.Synthetic != "" {
+			continue
+		}
+		hasCompact := false
+		for _, b := range f.Blocks {
+			for _, in := range b.Instrs {
+				if call, ok := in.(*ssa.Call); ok && call.Call.StaticCallee() != nil && strings.Contains(call.Call.StaticCallee().String(), "slices.Compact") {
+					hasCompact = true
+				}
+			}
+		}
+		searchSide := strings.Contains(f.Name(), "Search") || (f.Parent() != nil && strings.Contains(f.Parent().Name(), "Search"))
+		for _, b := range f.Blocks {
+			for _, in := range b.Instrs {
+				call, ok := in.(*ssa.Call)
+				if !ok {
+					continue
+				}
+				bi, ok := call.Call.Value.(*ssa.Builtin)
+				if !ok || bi.Name() != "append" || !inLoop(b) {
+					continue
+				}
+				sl, ok := call.Type().Underlying().(*types.Slice)
+				if !ok {
+					continue
+				}
+				if bt, ok := sl.Elem().Underlying().(*types.Basic); !ok || bt.Kind() != types.String {
+					continue
+				}
+				if !deepHas(w, call.Call.Args[1], "field:Term") {
+					continue
+				}
+				// only the query side (a function that searches): documents keep their repetitions (term frequency)
+				if !searchSide {
+					continue
+				}
+				n++
+				guarded := hasCompact
+				for _, gb := range f.Blocks {
+					ifi, ok := gb.Instrs[len(gb.Instrs)-1].(*ssa.If)
+					if !ok {
+						continue
+					}
+					cond := ifi.Cond
+					if u, ok := cond.(*ssa.UnOp); ok && u.Op == token.NOT {
+						cond = u.X
+					}
+					isMember := false
+					if ex, ok := cond.(*ssa.Extract); ok {
+						if _, ok := ex.Tuple.(*ssa.Lookup); ok {
+							isMember = true
+						}
+					}
+					if cc, ok := cond.(*ssa.Call); ok && cc.Call.StaticCallee() != nil && strings.Contains(cc.Call.StaticCallee().String(), "Contains") {
+						isMember = true
+					}
+					if isMember && (ssax.OnlyViaEdge(gb, 0, b) || ssax.OnlyViaEdge(gb, 1, b)) {
+						guarded = true
+					}
+				}
+				if !guarded {
+					bad = w.At(in)
+				}
+			}
+		}
+	}
+	if bad != "" {
+		c.Add("RANK", "text:terms-distinct", core.Violation, bad, "the query's terms are collected once per occurrence (appended in the token loop with no membership test): a repeated term is scored as often as it occurs, scores and the top-limit cut change with repetitions in the query text", props...)
+	} else {
+		c.Add("RANK", "text:terms-distinct", core.OK, "", fmt.Sprintf("%d slice collections of query terms, all behind a membership test", n), props...)
 	}
 }
